@@ -42,6 +42,16 @@ class ZeroTransOfInfected(ss.Connector):
                 d.rel_trans[d.infectious.uids] = 0.0
 
 
+class ZeroSusOfEven(ss.Connector):
+    """Sets the relative susceptibility of every even-numbered agent to zero and that of infectious odd agents' transmissibility to two (distinct factors on both sides)."""
+    def step(self):
+        for d in self.sim.diseases():
+            if isinstance(d, ss.Infection):
+                au = self.sim.people.auids
+                d.rel_sus[au] = 1.0; d.rel_sus[au[np.asarray(au) % 2 == 0]] = 0.0
+                d.rel_trans[au] = 1.0; d.rel_trans[au[np.asarray(au) % 2 == 1]] = 2.0
+
+
 class Book(ss.Analyzer):
     """C10 bookkeeping probe (module level: it travels with pickled / copied sims)."""
     def __init__(self, **kw):
